@@ -84,7 +84,13 @@ def gen_pre(rng):
 CORPUS = ["0x7FFFFFFFFFFFFFFFF", "[NUMBER:abc]", "[TIME:abc]", "[MONEY:12]", "[TIME:90000]", "1,2,3%", "31 january 2021 + 1 month",
           "15 january 2021 + 11 months", "15 march 2021 - 3 months", "1/1/2021 at 24", "99999999999999999 days", "9999999999999 weeks",
           "99999999999999 to date", "ıııı est 12:30", "3 # march 2020", "# jan", "x = ", "= 5", "a = b = c", "((((", "))))", "1 +", "* 2",
-          "1 2 3 4 5 6 7 8 9 10 11 12 13 14 15 16 17 18 19 20 21 22 23 24 25 26 27 28 29 30", "a\nb\r\nc\n\n", "\n", "\r\n", "\r"]
+          "1 2 3 4 5 6 7 8 9 10 11 12 13 14 15 16 17 18 19 20 21 22 23 24 25 26 27 28 29 30", "a\nb\r\nc\n\n", "\n", "\r\n", "\r",
+          # names that mix a word and a number (the highlight list is rewritten for a name spanning tokens of two lexer
+          # passes), used on a later line that has no `=` and holds another number
+          "plan 2 = 5\nplan 2 * 3", "q1 = 10\nq1 + 20", "test 1 = 123\ntest 1 + 7\n2 * test 1 # x", "a1 b2 = 4\n10 - a1 b2 + 3",
+          "3 rd = 9\n3 rd / 3 + 1", "yıl 2021 = 7\nyıl 2021 + 2021", "x 5% = 2\nx 5% + 5%",
+          # suffix, detached-sign and percent interplay
+          "1,5k", "2,0625k + 1", "- %10", "200 + -%10", "200 - - 10%"]
 
 
 def generate(rng, tier):
